@@ -162,6 +162,24 @@ var orderSpecs = []orderSpec{
 		assign: []string{"m"},
 	},
 	{
+		// C02 / C05: trim walks upwards and cuts a particle only while it is empty AND holds no retained message —
+		// the whole condition is part of the loop header as written
+		fn: "mqtt.(*TopicsIndex).trim", def: "topicsTrimOrder",
+		calls:  map[string]argMode{"n.particles.delete": allArgs},
+		assign: []string{"key", "n"},
+	},
+	{
+		// C01 / C03: per level the literal key AND "+" are followed; at the last level the particle's own
+		// subscribers and those of its "#" child (filter/# matches filter) are gathered, for both
+		fn: "mqtt.(*TopicsIndex).scanSubscribers", def: "topicsScanSubscribersOrder",
+		calls: map[string]argMode{
+			"x.scanSubscribers": allArgs, "x.gatherSubscriptions": allArgs, "x.gatherSharedSubscriptions": allArgs,
+			"x.gatherInlineSubscriptions": allArgs, "n.particles.get": allArgs, "particle.particles.get": allArgs,
+			"isolateParticle": allArgs,
+		},
+		assign: []string{"particle", "wild"},
+	},
+	{
 		fn: "mqtt.(*Client).WriteLoop", def: "writeLoopOrder",
 		calls: map[string]argMode{
 			"cl.WritePacket": allArgs, "cl.Lock": noArgs, "cl.Unlock": noArgs, "cl.flushOutbuf": noArgs, "atomic.AddInt32": allArgs,
